@@ -58,6 +58,47 @@ Theorem C19_refresh_warning_slots ci r v bs j0 :
 Proof. exact (should_query_slots ci r v bs j0). Qed.
 Print Assumptions C19_refresh_warning_slots.
 
+(* ---- the follow-up question ("when a PTR record tells it of an instance whose SRV record it lacks it asks for that
+   instance's SRV and TXT records") ----
+   needs_srv b v name: the instance's type is the browser's (or the browser enumerates all types), a PTR named that type is
+   held in v, no SRV of the instance is held in v.  For every response, after its records have been cached, the names it
+   touched (PTR targets, SRV/TXT owners) that need an SRV are collected - in the browser's cache as it is then - and one
+   multicast question asks SRV and TXT for each of them (C19_followup_message_shape gives the questions of that message). *)
+Theorem C19_followup_question now j m w :
+  m_response m = true ->
+  let '(w1, nms, nulls, e1) := browser_cache_records now j (m_records m) [] false w in
+  forall b1, nth_error (w_browsers w1) j = Some b1 ->
+  let v1 := match nth_error (w_caches w1) (b_cache b1) with Some c => view_of c | None => [] end in
+  let name_of := fun (n : list N) => match n return bstr with [] => if nulls then None else Some [] | _ :: _ => Some n end in
+  let qn := fold_left (fun qs n => if needs_srv b1 v1 (name_of n) then set_insert n qs else qs) nms [] in
+  exists e2 e3, snd (browser_on_message now j m w) =
+    e1 ++ e2 ++ e3 ++ match qn with
+                      | [] => []
+                      | _ :: _ => [ESendAll (fold_left (fun msg n => add_query (mkQuery (name_of n) T_TXT false)
+                                                   (add_query (mkQuery (name_of n) T_SRV false) msg)) qn default_message)]
+                      end.
+Proof. exact (browser_on_message_followup now j m w). Qed.
+Print Assumptions C19_followup_question.
+
+Theorem C19_followup_message_shape (nulls : bool) qnames m0 :
+  let name_of := fun (n : list N) => match n return bstr with [] => if nulls then None else Some [] | _ :: _ => Some n end in
+  let msg := fold_left (fun msg n => add_query (mkQuery (name_of n) T_TXT false) (add_query (mkQuery (name_of n) T_SRV false) msg)) qnames m0 in
+  m_queries msg = m_queries m0 ++ flat_map (fun n => [mkQuery (name_of n) T_SRV false; mkQuery (name_of n) T_TXT false]) qnames /\
+  m_response msg = m_response m0 /\ m_records msg = m_records m0.
+Proof. exact (followup_queries nulls qnames m0). Qed.
+Print Assumptions C19_followup_message_shape.
+
+(* ---- enumerate-all ("every newly learned service type is queried for its instances"): the batch timer asks one PTR
+   question per service type learnt since the last batch, with the PTR records already held as known answers, and
+   empties the batch ---- *)
+Theorem C19_enumerate_all_batch j w b t ts :
+  nth_error (w_browsers w) j = Some b -> b_ptr_targets b = t :: ts ->
+  exists msg, snd (browser_service_timeout j w) = [ESendAll msg] /\ m_response msg = false /\
+    map q_name (m_queries msg) = map (fun x => Some x) (t :: ts) /\ Forall (fun q => q_type q = T_PTR) (m_queries msg) /\
+    b_ptr_targets (nth j (w_browsers (fst (browser_service_timeout j w))) b) = [].
+Proof. exact (service_timeout_spec j w b t ts). Qed.
+Print Assumptions C19_enumerate_all_batch.
+
 (* non-vacuity: two browsers; after 125 s each has asked three times and the timers stand at 180 s *)
 Example C19_nonvacuous :
   let ops := [AApi (BNewBrowser (Some [95; 116; 46]%N) None); AApi (BNewBrowser (Some [95; 117; 46]%N) (Some 0%nat)); AAdv 125000] in
